@@ -4,8 +4,14 @@
    `xpub_new` is the constructor as repaired by fixes/C04-excl-new.diff (reads the active term count, as
    aeron's C++ ExclusivePublication does); `xpub_new_asis` is the constructor of the repository before that fix
    (always partition 0, term begin position 0).  Definitions only. *)
-Require Import V.Base.MachineInt V.Generated.GenConsts V.Model.Descriptor V.Model.LogBase V.Model.LogDelta V.Model.Appender
-               V.Model.ExclAppender V.Model.Publication.
+Require Import V.Base.MachineInt.
+Require Import V.Generated.GenConsts.
+Require Import V.Model.Descriptor.
+Require Import V.Model.LogBase.
+Require Import V.Model.LogDelta.
+Require Import V.Model.Appender.
+Require Import V.Model.ExclAppender.
+Require Import V.Model.Publication.
 Open Scope Z_scope.
 
 Record xpub := mkX { x_pub : pubstate; x_off : Z; x_tid : Z; x_idx : Z; x_begin : Z }.
